@@ -31,18 +31,83 @@ def e2e_stream(tier, seed):
     corpus = os.path.join(C.ROOT, "corpus", "e2e.txt")
     if os.path.exists(corpus):
         lines += [l.strip() for l in open(corpus) if l.strip() and not l.startswith("#")]
-    tries = 0
-    while len(lines) < n and tries < 20 * n:
-        tries += 1
+    # half of the budget: the generator's own distribution; the other half: picked from a 12x larger pool so that
+    # structurally rare shapes (measured on the model's emission) are present in every run
+    while len(lines) < n // 2:
         lines.append(G.gen_decl(rng, "valid"))
+    pool = [G.gen_decl(rng, "valid") for _ in range(12 * n)]
+    pool = [l for l in pool if len(l) < 900]
+    pm = C.lean_driver(["E " + l for l in pool])
+    feats = [emission_features(m) for m in pm]
+    counts = collections.Counter(f for fs in feats for f in fs)
+    taken = set()
+    quota = max(2, (n - len(lines)) // max(1, len(counts)))
+    for f, _ in sorted(counts.items(), key=lambda kv: kv[1]):          # rarest feature first
+        got = 0
+        for j, fs in enumerate(feats):
+            if got >= quota or len(lines) >= n:
+                break
+            if f in fs and j not in taken:
+                taken.add(j); lines.append(pool[j]); got += 1
+    j = 0
+    while len(lines) < n and j < len(pool):
+        if j not in taken:
+            lines.append(pool[j])
+        j += 1
     model = C.lean_driver(["E " + l for l in lines])
     ok = [(i, l) for i, (l, m) in enumerate(zip(lines, model)) if m.startswith("OK")]
     E = X.E2E("s%d" % seed, repo_dir, tools)
-    res = dict(E=E, lines=lines, model=model, ok=ok)
+    res = dict(E=E, lines=lines, model=model, ok=ok,
+               features=dict(collections.Counter(f for i, l in ok for f in emission_features(model[i]))))
     res["gen"] = E.generate(ok, rng=G.SplitMix64(seed + 99), perfile=20, per_invocation=4)
     res["extract"] = E.extract()
     _cache[key] = res
     return res
+
+def emission_features(m):
+    """structural features of a model emission line, used to steer the selection of end-to-end cases"""
+    if not m.startswith("OK"):
+        return set()
+    E = PC.parse_edump(m)
+    ths = E["threads"]
+    fs = set()
+    if len(ths) < 2:
+        return fs
+    fs.add("multi")
+    if len(ths) >= 4:
+        fs.add("threads>=4")
+    w = lambda th: set(a["val"] for c in th for a in c["args"] if a.get("wait"))
+    own = lambda th: set(c["head"] for c in th)
+    mw = w(ths[0])
+    if any(mw & w(t) for t in ths[1:]):
+        fs.add("main-and-goroutine-await-same-value" + ("+err" if E["err"] else ""))
+    if mw & w(ths[-1]) and E["err"]:
+        fs.add("main-and-last-goroutine-await-same-value+err")
+    for t in ths[1:]:
+        for v in w(t):
+            prod = v.split(".")[0]
+            if any(prod in own(t2) for t2 in ths[1:] if t2 is not t):
+                fs.add("goroutine-awaits-goroutine")
+            if prod in own(ths[0]):
+                fs.add("goroutine-awaits-main")
+    kc = PC.k_conditions(E)
+    for k, v in kc.items():
+        if v:
+            fs.add(k)
+    if any(c["fallible"] for c in ths[0]) and any(c["fallible"] for t in ths[1:] for c in t):
+        fs.add("fallible-in-main-and-goroutine")
+    if any(a["val"] == "A0" for t in ths for c in t for a in c["args"]):
+        fs.add("provider-takes-ctx")
+    if any(c["head"].startswith("F") for t in ths for c in t):
+        fs.add("field-read")
+    for t in ths:
+        for c in t:
+            vals = [a["val"] for a in c["args"] if a.get("wait")]
+            if len(vals) != len(set(vals)):
+                fs.add("same-awaited-value-twice-in-one-call")
+    if not E["err"]:
+        fs.add("no-error-result")
+    return fs
 
 def need_vet(S):
     if "vet" not in S:
@@ -302,9 +367,55 @@ def run_runtime(S, tier, seed):
     S["runtime"] = (specs, results, stderr)
     return S["runtime"]
 
-def judge_runtime(R, S, tier, seed, props):
+def deep_specs(S, ks, rng):
+    """intensive run specs for a few declarations (used when the emitted code differs from the model's emission):
+    every fallible provider alone (fast / others slow / itself slow), every pair and triple of fallible providers,
+    cancellation before the call and at every provider entry and exit, under three latency patterns"""
+    specs = []
+    for k in ks:
+        line = S["E"].decls[k]
+        E = PC.parse_edump(S["model"][k])
+        ret, provs = G.parse_decl(line)
+        sup = PC.suppliers(ret, provs)
+        need, _ = PC.needed(ret, provs, sup)
+        needed_p = sorted(x[1] for x in need if x[0] == 'P')
+        vids = S["E"].M.value_ids.get(k, set())
+        kc = PC.k_conditions(E)
+        pid = lambda i: "D%dP%d" % (k, i)
+        base = dict(Name="Init%d" % k, k=k)
+        live = [i for i in needed_p if i not in vids]
+        fallible = [i for i in live if provs[i]['e']]
+        main_heads = set(c["head"] for c in E["threads"][0])
+        pats = [{}, {pid(i): 4 for i in live}, {pid(i): rng.randint(0, 6) for i in live}]
+        specs.append(dict(base, kind="plain"))
+        specs.append(dict(base, kind="delays", DelayIn=pats[2]))
+        for f in fallible[:6]:
+            for d in ({}, {pid(i): 5 for i in live if i != f}, {pid(f): 8}):
+                specs.append(dict(base, kind="fail", fail=f, Fail={pid(f): True}, DelayIn=d, Timeout=1200))
+        import itertools
+        for a, b in list(itertools.combinations(fallible, 2))[:10]:
+            # the judgement wants (goroutine one, main one) when there is such a split; otherwise any order
+            if "P%d" % a in main_heads and "P%d" % b not in main_heads:
+                a, b = b, a
+            for slow in (a, b, None):
+                d = {pid(slow): 6} if slow is not None else {}
+                specs.append(dict(base, kind="fail2", fail=[a, b], Fail={pid(a): True, pid(b): True}, DelayIn=d, Timeout=1200))
+        for tr in list(itertools.combinations(fallible, 3))[:4]:
+            go_first = sorted(tr, key=lambda i: "P%d" % i in main_heads)
+            specs.append(dict(base, kind="fail2", fail=[go_first[0], go_first[-1]], Fail={pid(i): True for i in tr}, Timeout=1200))
+        if 0 in E["args"]:
+            to = 400 if kc["K7"] else 1200
+            for d in pats:
+                specs.append(dict(base, kind="cancel", CancelOn="before", DelayIn=d, Timeout=to))
+            for i in live[:8]:
+                for ev in ("enter", "exit"):
+                    for d in pats[1:]:
+                        specs.append(dict(base, kind="cancel", CancelOn="%s:%s" % (ev, pid(i)), DelayIn=d, Timeout=to))
+    return specs
+
+def judge_runtime(R, S, tier, seed, props, given=None):
     """property-level judgement of every run; props: subset of {C02, C03, C06, C07, C08}"""
-    specs, results, err = run_runtime(S, tier, seed)
+    specs, results, err = given if given is not None else run_runtime(S, tier, seed)
     if specs is None:
         R.violation("runtime runs impossible: " + err, {"kind": "correspondence-broken", "correspondence": "rendered package + generated injectors compile", "detail": err})
         return 0, 0
@@ -442,6 +553,15 @@ def run_failure_property(prop, tier, seed, note):
     R.oblige("correspondence: text of the emitted functions = model emission (wait flavours, error checks, closes, eg.Wait form) on %d declarations" % len(S["ok"]),
              not diffs, "%d differ; first: %s" % (len(diffs), [d[1:] for d in diffs[:1]]))
     n, stats = judge_runtime(R, S, tier, seed, {prop})
+    if diffs and not R.violations and S.get("runtime", (None,))[0] is not None:
+        # the emitted code is not what the model says: search the differing declarations for a run that breaks the property
+        ks = [i for i, l, a, b in sorted(diffs, key=lambda d: len(d[1]))[:40] if b.startswith("OK") and "Init%d" % i in S["extract"]]
+        dspecs = deep_specs(S, ks, G.SplitMix64(seed * 131 + 7))
+        clean = [{k: v for k, v in sp.items() if k in ("Name", "Fail", "DelayIn", "CancelOn", "Hold", "Timeout")} for sp in dspecs]
+        dres, derr = S["E"].run_specs(clean, timeout=1800)
+        n2, stats2 = judge_runtime(R, S, tier, seed, {prop}, given=(dspecs, dres, derr))
+        R.coverage["deep_search_runs_on_differing_declarations"] = n2
+        n += n2
     if diffs and not R.violations:
         i, l, a, b = diffs[0]
         R.violation("emitted code differs from the model's emission on %d declarations; no run of the compiled injectors violated the property" % len(diffs),
@@ -453,6 +573,7 @@ def run_failure_property(prop, tier, seed, note):
     multi = sum(1 for k, l in S["ok"] if " | " in S["model"][k] or "go=[]" not in S["model"][k])
     R.coverage.update({"evaluations": n, "distinct_nontrivial": len(set(S["extract"].values())), "programs": len(S["ok"]), "traces_validated_against_impl": n,
                        "disagreements_checked": len(diffs), "runs_by_kind": dict(stats) if stats else {}, "multi_threaded_programs": multi,
+                       "emission_features_of_selected_declarations": S.get("features", {}),
                        "rule": "every model-accepted seeded declaration is rendered, generated by the real CLI, compiled, and run under: fault-free (plain and with random provider latencies), each needed fallible provider failing alone (fast and while the others are slow), pairs of failures (one in a goroutine, one on the injector's goroutine, both orders), cancellation before the call and at provider entries; distinct = distinct emitted structures; non-trivial = every run with >= 1 goroutine, a failure or a cancellation"})
     R.assumptions = [note, "schedules of the real runtime are steered only through provider latencies, failures and cancellation points; the model predicts a set of outcomes and the run must satisfy the property"]
     return R.finish("cd lean && lake build KV.Props.%s && lake env lean <audit of Props/%s theorems>" % (prop, prop), TRUSTED)
